@@ -63,6 +63,7 @@
   `C07_no_lost_wakeup_events`.
 -/
 import EventppVerif.Generated.QueueFrag
+import EventppVerif.Conc.DqnCount
 import EventppVerif.Conc.WaitInv
 import EventppVerif.Conc.WaitDqn
 import EventppVerif.Conc.WaitBal
@@ -444,5 +445,26 @@ theorem C07_bridge_source :
     Evp.Gen.Queue.homo_dqnLocked = true ∧ Evp.Gen.Queue.homo_dqnCopyCounts = true ∧ Evp.Gen.Queue.homo_listFirst = true ∧
     Evp.Gen.Queue.homo_emptyFirst = true ∧ Evp.Gen.Queue.heter_listFirst = true ∧
     Evp.Gen.Queue.heter_emptyFirst = true := by decide
+
+/-! ### `nc` is the number of live DisableQueueNotify objects (D13)
+
+The model's `dqnBegin` / `dqnEnd` are "an object comes to life / goes away".  For the class itself
+(Conc/DqnCount: constructions, copies and destructions in any order) that reading holds when the copy
+constructor registers the copy - which is what `homo_dqnCopyCounts` re-reads from the source - and fails
+for the implicit copy the class had. -/
+
+/-- after any history of constructions, copies and destructions the library's counter is the number of
+    live objects, so notification is enabled exactly when no DisableQueueNotify object is alive -/
+theorem C07_dqn_counts_live (ops : List Evp.Dqn.Op) :
+    (Evp.Dqn.run .registers {} ops).nc = ((Evp.Dqn.run .registers {} ops).live : Int) ∧
+    ((Evp.Dqn.run .registers {} ops).nc = 0 ↔ (Evp.Dqn.run .registers {} ops).live = 0) :=
+  ⟨Evp.Dqn.counts_run ops {} (by simp [Evp.Dqn.Counts]), Evp.Dqn.enabled_iff_none_alive ops⟩
+
+/-- the class as it was: a copy that shares the registration leaves the counter at 0 with an object alive,
+    and at -1 with none (found on the real code, D13) -/
+theorem C07_dqn_copy_counterexample :
+    Evp.Dqn.run .shares {} [.construct, .copy, .destroy] = { nc := 0, live := 1 } ∧
+    Evp.Dqn.run .shares {} [.construct, .copy, .destroy, .destroy] = { nc := -1, live := 0 } :=
+  Evp.Dqn.shared_copy_counterexample
 
 end Evp.Conc
